@@ -50,6 +50,30 @@ CHECKS = {
    text="TLC explores all interleavings AND all stale-load choices of three threads running set/get/is_set programs on Holder.tla (compare_exchange -> cell write -> store; load -> cell read) under a view-based release/acquire semantics, composed with the monitor HolderProp (vector-clock happens-before: every cell read/write ordered after the previous conflicting access; one winner; get returns none or the winner's instance). The four memory orderings of the model are not typed in: they are read from a probe run of the real code through the cfg(cadence_verif) atomic shim, so weakening an Ordering in state.rs changes the model that is checked (store or load -> Relaxed are refuted, CAS -> Relaxed is correctly accepted). TLC-simulated interleavings are replayed on fresh SingletonHolders with the threads parked at the shim points, and scheduled + free-running traces are validated by TLC against HolderProp using the orderings logged in the trace.",
    note="release/acquire semantics as encoded in HolderProp; executions recorded on x86 are sequentially consistent, so non-SC behaviours are covered in the model only; if the holder is rewritten so that the shim sees a different operation shape only the trace-level rules apply (reported as MODEL-DIVERGENCE)",
    tech="TLC model checking of a weak-memory implementation model with orderings extracted from the source; scheduled replay; trace validation with a vector-clock monitor"),
+ "C01": dict(engine="client", cat=MC, ref="DESIGN.md 6/C01",
+   text="The grammar is written once in LineGrammar.tla. TLC enumerates every call shape of Line.tla (24 entry points x plain/tagged/quiet/macro x 16 combinations of optional sections x 5 prefix shapes x value shapes incl. empty packed lists x default/call tag lists x container none/default/override/both: 18 314 shapes over a tiny alphabet that contains every delimiter) and checks that an independent recursive-descent parser inverts Render and that the standalone constructors agree. Every shape is replayed on the real client (exact text), the macro shapes in one child process per global configuration, and every call of the seeded random drivers (hostile, multi-byte, delimiter-containing strings; 64-bit values; long lists) is validated by TLC: ClientTrace.tla computes the expected line of each recorded call with the same LineGrammar and compares it with what the recording sink received and with the returned metric.",
+   note="byte fidelity of unbounded strings is by seeded instantiation; float numerals are accepted iff they parse back bit-identically (see C02); parse-back of real lines follows from exact equality with Render plus the model-level round-trip theorem",
+   tech="TLC-checked grammar theorem over enumerated call shapes; shape replay; trace validation with the expected line computed in TLA+"),
+ "C02": dict(engine="client", cat="exploration", ref="DESIGN.md 6/C02, 7",
+   text="Values.tla model-checks the conversion rules (widening identity, Duration -> floor(ms) / ns, overflow at any list position rejects the whole call, the code's as_millis arithmetic equals the specification, closed formulas of the boundary classes) for ALL Durations and lists at five reduced word sizes. The harness instantiates the same boundary formulas at real scale (u64, 10^9 ns/s) on every Duration entry point, form and list position, plus the extremes of every integer width and float boundary patterns; numerals are predicted by an independent 128-bit digit loop, float numerals must parse back bit-identically; TLC judges every recorded call (ClientProp rules tagged C02).",
+   note="TLC has 32-bit integers and no floats: real-scale fidelity is sampled (boundary classes derived from the model + seeded random values and bit patterns), hence exploration, not model checking, for the 'all i64/u64/f64' part",
+   tech="TLC model checking of the conversion rules at reduced word size; model-derived boundary classes replayed at real scale; trace validation"),
+ "C03": dict(engine="client", cat=MC, ref="DESIGN.md 6/C03",
+   text="Client.tla models one call as a protocol (convert -> reject | format once -> sink.emit -> result / handler; macro unwrap) composed with ClientProp; TLC explores all sequences of 3 calls x 4 forms x valid/invalid x sink accept / refuse(kind) and refutes the protocol mutants (double emit, Ok on refusal, swallowed error, handler twice). On the real code every call of the shape replay (incl. refusing sink), the boundary classes and the random drivers (scripted refusing sink with unique error messages, with/without handler) is judged by TLC: exactly one emit iff valid, Ok(metric) = emitted text, IoError carries the sink's own error, InvalidInput for rejected values, quiet forms call the handler exactly once with that error and never on success.",
+   note="sink refusals are injected by a scripted recording sink (all io::ErrorKinds behave alike in the code path)",
+   tech="TLC model checking of a call-protocol model x monitor; replay; trace validation"),
+ "C04": dict(engine="client", cat=MC, ref="DESIGN.md 6/C04",
+   text="The decoration rule (default tags first in configuration order, then call tags in call order; per-call container id replaces the default for that call only) is LineGrammar.Decorate. Line.tla enumerates all 24 entry points x every form x 5 default-tag lists x 3 call-tag lists x container none/default/override/both - the matrix in which a kind or value type lacking decoration hides - and every shape is replayed on the real client; random clients with random default tags / container are trace-validated with the expected line computed in TLA+; macro shapes run against decorated global clients.",
+   note="as C01",
+   tech="TLC enumeration of the decoration matrix; shape replay; trace validation"),
+ "C17": dict(engine="client", cat=MC, ref="DESIGN.md 6/C17",
+   text="Line.tla's macro shapes (22 macro-callable entry points x 0-3 key=>value tags x decorated/undecorated global client) and Client.tla's macro form (unwrap of the global, quiet routing) are checked by TLC; on the real code each global-client configuration runs in its own fresh child process (set once per process, a second set must be ignored), including the unset state: same line in a single emit, failures only to the handler, panic iff unset, every macro argument evaluated exactly once (counting wrappers).",
+   note="one process per configuration; 10 processes quick, >120 thorough",
+   tech="TLC-checked shapes and protocol; per-process replay; trace validation"),
+ "C20": dict(engine="c20", cat="exploration", ref="DESIGN.md 6/C20, 7",
+   text="Panic is not an action of any model: every harness call runs under catch_unwind with overflow checks and debug assertions on, and any panic observed in the hostile enumerations of all engines (hostile constructor scenarios: capacities 0/1, empty/long terminators, unusable addresses and paths, tiny queues; client calls with empty/long/non-ASCII/delimiter strings, NaN/inf/-0.0, u64::MAX, i64::MIN, maximal Durations, empty and 100 000-element lists; writer and queue stress) is flagged C20 by the TLC monitors, as is an invalid value that is not reported as an error or a valid one that is not sent. The arithmetic guards (written <= capacity so capacity - written cannot underflow; queued() never wraps) are invariants checked by TLC on Writer.tla / Queue.tla.",
+   note="'for all inputs' is not decided: exploration over the hostile classes the specifications name plus seeded random instantiation",
+   tech="spec-driven hostile enumeration under catch_unwind judged by the TLC monitors; arithmetic guards as TLC invariants"),
 }
 
 def main():
@@ -73,6 +97,8 @@ def main():
     for pid, c in CHECKS.items():
         engines.setdefault(c["engine"], []).append(pid)
     ENG_DESC = {
+      "client": ("spec/LineGrammar.tla + Line.tla + Client.tla + ClientProp.tla + ClientTrace.tla + Values.tla; tools/eng_client.py; harness/src/client.rs", "TLA+ grammar + call-protocol model x monitor; shape replay; per-process macro replay; trace validation"),
+      "c20": ("tools/eng_c20.py (uses the writer, queue and client monitors)", "spec-driven hostile enumeration under catch_unwind"),
       "holder": ("spec/Holder.tla + spec/HolderProp.tla + spec/HolderTrace.tla; tools/eng_holder.py; harness/src/holder.rs", "TLA+ weak-memory model x happens-before monitor; orderings extracted from the running code; scheduled replay; trace validation"),
       "queue": ("spec/Queue.tla + spec/QueueProp.tla + spec/QueueTrace.tla; tools/eng_queue.py; harness/src/queue.rs", "TLA+ implementation model x monitor with liveness; cooperative-scheduler replay; free-running trace validation"),
       "writer": ("spec/Writer.tla + spec/WriterProp.tla + spec/WriterTrace.tla; tools/eng_writer.py; harness/src/writer.rs", "TLA+ implementation model x property monitor, TLC exhaustive + behaviour replay + trace validation"),
